@@ -39,6 +39,8 @@ const (
 	KStart      = "start"
 	KUnsetCID   = "unset-cid" // the service forgets the cluster id (a re-created lease key)
 	KWait       = "wait"
+	KStall      = "stall"   // the node's calls of one lease-service operation hang until "unstall"
+	KUnstall    = "unstall"
 )
 
 type NodeCfg struct {
@@ -112,11 +114,41 @@ func genPlan(t *rapid.T) Plan {
 			st.Kind = KStart
 		case k < 20:
 			st.Kind = KUnsetCID
+		case k < 21 && rapid.Bool().Draw(t, "stall?"):
+			st.Kind, st.Arg = KStall, rapid.SampledFrom([]string{"acquire", "primary-info", "cluster-id"}).Draw(t, "stall_op")
+			if rapid.Bool().Draw(t, "cid_race") {
+				// a candidate hangs in its election loop while the service is wiped, initialised by
+				// somebody else and left without a holder again
+				other := (st.Node + 1) % nn
+				p.Steps = append(p.Steps, st, Step{Kind: KUnsetCID}, Step{Kind: KExpire}, Step{Kind: KWait, N: 40}, Step{Kind: KStall, Node: other, Arg: "acquire"}, Step{Kind: KExpire}, Step{Kind: KUnstall, Node: st.Node}, Step{Kind: KWait, N: 40}, Step{Kind: KUnstall, Node: other})
+				continue
+			}
+		case k < 21:
+			st.Kind = KUnstall
 		default:
 			st.Kind, st.N = KWait, rapid.IntRange(1, 80).Draw(t, "ms")
 		}
 		p.Steps = append(p.Steps, st)
 	}
+	if rapid.IntRange(0, 9).Draw(t, "cid_race_plan") == 0 {
+		// Two candidates that belong to different clusters, and a slow Acquire of one of them
+		// that spans a wipe of the service, its initialisation by the other node and the end
+		// of that node's lease.
+		x := rapid.IntRange(0, 1).Draw(t, "slow_node")
+		p.Preset = false
+		p.Nodes = []NodeCfg{{Candidate: true, ClusterID: ""}, {Candidate: true, ClusterID: "same"}}
+		race := []Step{{Kind: KUnsetCID}, {Kind: KStall, Node: x, Arg: "acquire"}, {Kind: KExpire}, {Kind: KWait, N: 40}, {Kind: KStall, Node: 1 - x, Arg: "acquire"}, {Kind: KExpire}, {Kind: KUnstall, Node: x}, {Kind: KWait, N: 40}, {Kind: KUnstall, Node: 1 - x}}
+		at := rapid.IntRange(0, len(p.Steps)).Draw(t, "race_at")
+		steps := append([]Step(nil), p.Steps[:at]...)
+		steps = append(steps, race...)
+		p.Steps = append(steps, p.Steps[at:]...)
+		for i := range p.Steps {
+			if p.Steps[i].Node > 1 {
+				p.Steps[i].Node %= 2
+			}
+		}
+	}
+	p.Steps = append(p.Steps, Step{Kind: KUnstall, Node: -1})
 	return p
 }
 
@@ -197,6 +229,7 @@ const ttl = 50 * time.Millisecond
 func runPlan(c *pbt.Case, p Plan) {
 	cl := cluster.New(c.TempDir(), ttl)
 	c.Cleanup(cl.Close)
+	c.Cleanup(func() { cl.Svc.Unstall("") }) // (runs before cl.Close: nothing hangs while the nodes stop)
 	cl.DBs[dbName] = &cluster.DBConfig{Name: dbName, PageSize: 512, JournalMode: pager.Delete, Sync: pager.SyncOff, Sector: 512}
 	if p.Preset {
 		cl.Svc.SetClusterIDDirect(idSame)
@@ -229,7 +262,6 @@ func runPlan(c *pbt.Case, p Plan) {
 	}
 	pctxs := map[*cluster.CNode][]pctx{}
 	lastPos := map[*cluster.CNode]map[string]ltx.Pos{}
-	lastHolder := ""
 	primaries, losses, handoffs := 0, 0, 0
 	tx := uint32(0)
 
@@ -264,31 +296,39 @@ func runPlan(c *pbt.Case, p Plan) {
 				c.Failf("C08/non-candidate-acquired", "%s: non-candidate node %s called Acquire %d times", when, n.Name, e.acquires[n.Name])
 			}
 			// --- own cluster only ---
+			// (judged against the cluster id the service had when it granted the lease the node
+			// holds: a scripted wipe and re-initialisation of the service afterwards does not
+			// make a node that is still inside its TTL a primary "for" the new cluster)
 			local := n.Store.ClusterID()
-			if svcID := cl.Svc.ClusterIDDirect(); isPrimary && local != "" && svcID != "" && local != svcID && e.lease[n.Name] != "" {
-				c.Failf("C08/primary-for-foreign-cluster", "%s: node %s (cluster %s) is primary under a lease of cluster %s", when, n.Name, local, svcID)
+			if grantID := cl.Svc.ClusterIDAtGrant(n.Name, e.lease[n.Name]); isPrimary && e.lease[n.Name] != "" && grantID != "" && grantID != local {
+				c.Failf("C08/primary-for-foreign-cluster", "%s: node %s (cluster %q) is primary under lease %s, which the service granted as a lease of cluster %s", when, n.Name, local, e.lease[n.Name], grantID)
 			}
 			pm := n.Store.PosMap()
-			if prev, ok := lastPos[n]; ok && !isPrimary && holder == lastHolder && holder != "" && holder != n.Name {
-				if h := byName[holder]; h != nil && h.Up {
-					hid := h.Store.ClusterID()
-					changed := false
-					for k, v := range pm {
-						if prev[k] != v {
-							changed = true
-						}
+			// (whom a node replicates from is the node its stream is open to - which can be a
+			// primary that has lost the lease and does not know yet -, not whoever holds the lease)
+			if prev, ok := lastPos[n]; ok && !isPrimary {
+				var h *cluster.CNode
+				for _, x := range nodes {
+					if x != n && x.Up && x.URL != "" && x.URL == n.FC.LastStreamURL() {
+						h = x
 					}
-					if changed && local != "" && hid != "" && local != hid {
-						c.Failf("C08/replicated-from-foreign-cluster", "%s: node %s (cluster %s) applied transactions from primary %s (cluster %s)", when, n.Name, local, holder, hid)
+				}
+				changed := false
+				for k, v := range pm {
+					if prev[k] != v {
+						changed = true
 					}
-					if changed {
-						c.Label("replicated")
+				}
+				if h != nil && changed {
+					if hid := h.Store.ClusterID(); local != "" && hid != "" && local != hid {
+						c.Failf("C08/replicated-from-foreign-cluster", "%s: node %s (cluster %s) applied transactions while streaming from %s (cluster %s)", when, n.Name, local, h.Name, hid)
 					}
+					c.Label("replicated")
 				}
 			}
 			lastPos[n] = pm
 		}
-		lastHolder = holder
+		_ = holder
 	}
 
 	settle := func(d time.Duration) { time.Sleep(d) }
@@ -299,6 +339,9 @@ func runPlan(c *pbt.Case, p Plan) {
 				tx++
 				_, _ = n.TryWrite(dbName, pager.WalTx{Tx: pager.Tx{Writes: []pager.Write{{Pgno: 2, Ver: tx}}, NewSize: 2, Fill: byte(tx)}})
 				n.CloseConns()
+				// (the node's own commit is not replication: a node that stops being primary right
+				// after it must not look as if it had applied somebody's transactions)
+				lastPos[n] = n.Store.PosMap()
 				primaries++
 				return
 			}
@@ -312,7 +355,7 @@ func runPlan(c *pbt.Case, p Plan) {
 	for i, st := range p.Steps {
 		when := fmt.Sprintf("step %d (%s %s node %d)", i, st.Kind, st.Arg, st.Node)
 		c.Notef("%s", when)
-		n := nodes[st.Node%len(nodes)]
+		n := nodes[max(st.Node, 0)%len(nodes)]
 		switch st.Kind {
 		case KAcquireErr:
 			switch st.Arg {
@@ -433,6 +476,15 @@ func runPlan(c *pbt.Case, p Plan) {
 		case KUnsetCID:
 			cl.Svc.SetClusterIDDirect("")
 			c.Label("service-forgot-cluster-id")
+		case KStall:
+			cl.Svc.Stall(n.Name, st.Arg)
+			c.Labelf("stalled:%s", st.Arg)
+		case KUnstall:
+			if st.Node < 0 {
+				cl.Svc.Unstall("")
+			} else {
+				cl.Svc.Unstall(n.Name)
+			}
 		case KWait:
 			settle(time.Duration(st.N) * time.Millisecond)
 		}
